@@ -187,6 +187,11 @@ def run_path(world, it, ref, contract):
                     it.oblige("EXIT", clause, g, fnode.lineno)
         else:
             declared = None
+            for nv in contract.never_raises:
+                if issubclass(exc.cls, world.resolve_class(nv)):
+                    it.oblige("RAISES", f"{exc.cls.__name__} from `{exc.origin}` (must never escape)",
+                              False, exc.lineno)
+                    return
             for d in contract.raises:
                 dcls = world.resolve_class(d)
                 if issubclass(exc.cls, dcls):
